@@ -412,6 +412,8 @@ class Generator:
             body = R.r19_while_let_ref_lit(body, log)
         if 'r23' in e.opts:
             body = R.r23_digits_prefix_collect(body, log)
+        if 'r24' in e.opts:
+            body = R.r24_format_minus(body, log)
         if 'rename' in e.opts:
             mp = dict(kv.split(':') for kv in e.opts['rename'].split(','))
             both(R.rename_idents, mp, log)
